@@ -48,6 +48,11 @@ candidate ``deferred-column-load-on-aliased-instance-drops-lazy-loader-options``
 ``a = select(aliased(A)).options(defer(a1.x), lazyload(a1.bs).options(with_expression(B.ex, ..)))``,
 then ``a.x`` (deferred load) makes the later lazy load of ``a.bs`` forget the nested
 option; with the plain entity it is kept).
+Round 3 candidates: ``joined-nested-innerjoin-under-subclass-target:AssertionError`` /
+``...:wrong-data`` - ``joinedload(Task.manager).joinedload(Manager.company, innerjoin=True)``
+with Manager a joined-inheritance subclass raises AssertionError in
+``_splice_nested_inner_join``, or - when another eager join holds an alias of the base
+table - splices the inner join into *that* join and loads the wrong related object.
 Another rare candidate: ``joined-collection-appender-on-replaced-collection:AttributeError``
 (``A.bs`` lazy="joined" at mapper level;
 ``select(A).options(subqueryload(A.bs), joinedload(A.profile).joinedload(P.a))`` crashes with
@@ -749,7 +754,8 @@ def one_query(ctx, sa, orm, R, zoo, engine, spy, q, tree, rng, warnings):
                 # mapper path); instances of the plain entity keep them
                 mech = "deferred-column-load-on-aliased-instance-drops-lazy-loader-options"
             ctx.violation(
-                mech if mech.startswith(("subqueryload-m2o-deferred-fk", "deferred-column-load-on-aliased"))
+                mech if mech.startswith(("subqueryload-m2o-deferred-fk", "deferred-column-load-on-aliased",
+                                         "joined-nested-innerjoin"))
                 else f"graph-differ:{mech}",
                 f"loaded graph differs from all-lazy baseline: {d[:3]} assign={witness['assign']} flavour={flavour}",
                 dict(witness, diff=d),
@@ -833,6 +839,16 @@ def classify(zoo, root, tree, assign, q, diff=None, flavour=None, rc=None):
     kind of the first path whose target shows a difference (or the set of non-lazy
     strategies in use), plus query features that matter for eager loading."""
     base = "E" if root in ("Eng", "Mgr") else root
+    if diff and rc and len(rc) > 2 and rc[2] % 2:
+        for p, st in assign.items():
+            if len(p) == 2 and st == "joined" and assign[p[:1]] == "joined":
+                parent = zoo.rel(base, p[0])
+                child = zoo.rel(parent.target, p[1])
+                if parent.target in ("Eng", "Mgr") and not child.uselist and not child.nullable_fk:
+                    # joinedload(<rel to subclass>).joinedload(<rel>, innerjoin=True): the nested
+                    # inner join is spliced into another eager join that holds an alias of the
+                    # same base table (or, when there is none, an AssertionError is raised)
+                    return "joined-nested-innerjoin-under-subclass-target:wrong-data"
     feats = []
     if q["limit"] is not None or q["offset"] is not None:
         feats.append("limit")
